@@ -3551,9 +3551,12 @@ class NameCheckVisitor(node_visitor.ReplacingNodeVisitor):
             constraint = AndConstraint.make(reversed(out_constraints))
             return annotate_with_constraint(out, constraint)
         else:
-            # For OR conditions, no need to add a constraint here; we'll
-            # return a Union and extract_constraints() will combine them.
-            return out
+            # "a or b" is truthy iff a or b is. (This cannot be left to
+            # extract_constraints() on the resulting Union: for a union that merely
+            # merges several definitions nothing follows from the members' constraints
+            # unless every member has one.)
+            constraint = OrConstraint.make(out_constraints)
+            return annotate_with_constraint(out, constraint)
 
     def visit_Compare(self, node: ast.Compare) -> Value:
         nodes = [node.left, *node.comparators]
